@@ -50,6 +50,10 @@ async fn is_block_dev(file: &File) -> Result<bool, std::io::Error> {
     #[cfg(target_os = "macos")]
     use std::os::macos::fs::MetadataExt;
     let meta = file.metadata().await?;
+    #[cfg(oll3_bita_verif)]
+    if std::env::var_os("BITA_VERIF_FORCE_BLOCKDEV").is_some() {
+        return Ok(true);
+    }
     if meta.st_mode() & 0x6000 == 0x6000 {
         Ok(true)
     } else {
